@@ -48,6 +48,20 @@ Theorem C20_request_dials_only_configured : forall eps r t,
 Proof. exact answer_dialed. Qed.
 Print Assumptions C20_request_dials_only_configured.
 
+(** non-vacuity: a configuration with a duplicated key (the later endpoint
+    wins), an unknown key, and the dispatch *)
+Theorem C20_nonvacuous :
+  forward_open ex_eps (ascii_bytes Lits.shell_tty_s) = FDial (ascii_bytes Lits.file_download_s) /\
+  ((forall t, ~ In (ascii_bytes Lits.file_upload_s, t) ex_eps) /\
+   forward_open ex_eps (ascii_bytes Lits.file_upload_s) = FErr 40) /\
+  answer ex_eps (ReqDispatch (forward_prefix ++ forward_prefix)) = FDialed (ascii_bytes Lits.shell_stream_s) /\
+  answer ex_eps (ReqDispatch forward_prefix) = FNotFound /\
+  answer ex_eps (ReqDispatch (ascii_bytes Lits.shell_tty_s)) = FNoAnswer.
+Proof.
+  split; [exact ex_dial_last_wins|]. split; [exact ex_unknown_refused|]. exact ex_dispatch.
+Qed.
+Print Assumptions C20_nonvacuous.
+
 (** The constants and the wiring regenerated from the source on this run are
     the model's. *)
 Theorem C20_source_facts :
